@@ -74,7 +74,9 @@ def run(ctx):
         import c02
         ctx.guard(c08.keep_only, ctx, lambda: c02.boundaries(ctx, cfg, fs), lambda o: 'byte-length' in o.key or 'width-table' in o.key, 'K.tokenized-as-flag')
         ctx.guard(c08.keep_only, ctx, lambda: c07.table(ctx, cfg, fs), lambda o: 'depth=Less' in o.key or 'depth=Greater' in o.key, 'D.deeper-outcome')
-        import c09, c06, consumers, c19
+        import c09, c06, consumers, c19, c05
+        # a help flag right of an adjacent command's block is seen by the enclosing level: the command gives the caller's scope back (shared with C05)
+        ctx.guard(c08.keep_only, ctx, lambda: c05.scope_restore(ctx, cfg, fs), lambda o: 'adjacent-ok-scope' in o.key, 'B.best-effort')
         # the help flag is "an item of its own" only if the tokenizer knows which shorts are flags: registry wiring of run_inner (shared with C02)
         ctx.guard(c08.keep_only, ctx, lambda: c02.registry(ctx, cfg, fs), lambda o: 'run_inner' in o.key, 'K.tokenized-as-flag')
         # ... and inside an adjacent group the window is the run of PRESENT items (an item consumed earlier does not end it)
